@@ -478,5 +478,5 @@ def r3_reserved_parts_cover_generated_names(ctx, rid):
 RULES = [
     ("C05-R1", r4_fresh_name_generator, 6),
     ("C05-R2", r2_generated_names_never_overwrite, 3),
-    ("C05-R3", r3_reserved_parts_cover_generated_names, 12),
+    ("C05-R3", r3_reserved_parts_cover_generated_names, 18),
 ]
